@@ -2,6 +2,7 @@ import RtcModel.C07Rtp
 import RtcModel.C07Ice
 import RtcModel.C07Dtls
 import RtcModel.C07Sctp
+import RtcModel.C07SctpSt
 import RtcModel.C07Media
 import RtcModel.C07Sdp
 import RtcModel.Drv.Util
@@ -56,6 +57,14 @@ def parsePk (t : String) : Option (Nat × Nat × Bool × Array UInt8) :=
 
 def showSamples (l : List (List Nat)) : String :=
   s!"{l.length}:" ++ ";".intercalate (l.map fun s => "/".intercalate (s.map toString))
+
+def parseSctpPkt (t : String) : Option SctpSt.Pkt :=
+  match t.splitOn ":" with
+  | [c, hx, ck] => do
+    let bs ← unhex hx
+    let cookies ← (if ck = "-" then some [] else (ck.splitOn "+").mapM (fun h => (unhex h).map List.toArray))
+    some ⟨bs, c = "1", cookies⟩
+  | _ => none
 
 def handleSpecial (stream : String) (args : List String) : String :=
   match stream, args with
@@ -120,6 +129,15 @@ def handleSpecial (stream : String) (args : List String) : String :=
       | .err _ _ => "ok"     -- the live handler's `Err` (failed send, rejected DCEP) is "returned", like `Ok`
       | .panic s => if s = "hang" then "hang" else "panic"
     | none => "bad-hex"
+  | "sctpassoc", role :: _seed :: pks =>
+    match pks.mapM parseSctpPkt with
+    | some ps =>
+      let s0 : SctpSt.St := if role = "1" then { t1 := 1, hasTag := true } else {}
+      match SctpSt.runHistory s0 ps (Buf.ofList []) 0 with
+      | .ok ds _ _ => "ok " ++ " ".intercalate (ds.map fun d => "/".intercalate (d.map nats))
+      | .err e _ => "err " ++ e
+      | .panic s => if s = "hang" then "hang" else "panic"
+    | none => "bad-args"
   | "h264", pks =>
     match pks.mapM parsePk with
     | some ps => showRes (Media.h264Run {} ps (Buf.ofList []) 0) (fun r => " ".intercalate (r.map showSamples))
